@@ -417,6 +417,19 @@ func (y *c12L2Sys) Step(s *c12L2State, l engine.Letter) (*c12L2State, string, *e
 		}
 		return c, "rejected", nil
 	case c12Plan:
+		// the chain is in use: the current executor relayed (a deposit L2 had already seen) before the
+		// block that executes the plan ends
+		if ex := s.anExecutor(); ex != "" {
+			if next, err := s.w.K.GetNextL1Sequence(ctx); err == nil && next > 1 {
+				stale, _, _ := c06Msg(1, "e1", 0)
+				stale.Sender, stale.Sequence = s.addr(ex), next-1
+				wctx, _ := ctx.CacheContext()
+				s.w.Deliver(wctx, stale)
+			} else {
+				wctx, _ := ctx.CacheContext()
+				s.w.Deliver(wctx, opchildtypes.NewMsgUpdateOracle(s.addr(ex), 5, []byte{1, 2, 3}))
+			}
+		}
 		s.w.K.ExecutorChangePlans = map[uint64]opchildtypes.ExecutorChangePlan{}
 		defer func() { s.w.K.ExecutorChangePlans = map[uint64]opchildtypes.ExecutorChangePlan{} }()
 		var planExecs []string
@@ -499,40 +512,48 @@ func (y *c12L2Sys) Check(s *c12L2State) *engine.Violation {
 		}
 		return nil
 	}
-	for _, sg := range c12L2Signers {
-		a := s.addr(sg)
-		isAuth, isAdmin, isExec := sg == "authority", sg == s.admin, s.isExec(sg)
-		pp := p
-		em, _ := opchildtypes.NewMsgExecuteMessages(a, []sdk.Msg{opchildtypes.NewMsgUpdateParams(w.Authority, &pp)})
-		addv, _ := opchildtypes.NewMsgAddValidator("m", a, valOf("o3"), world.EdKey("k3").PubKey())
-		existing := valOf("o1")
-		if vals, err := w.K.GetAllValidators(s.ctx); err == nil && len(vals) > 0 {
-			existing = vals[0].OperatorAddress
-		}
-		remv, _ := opchildtypes.NewMsgRemoveValidator(a, existing)
-		info := c12Info("")
-		if s.info != nil {
-			info = *s.info
-		}
-		dep, _, _ := c06Msg(1, "e1", 0)
-		dep.Sender = a
-		dep.Sequence = next
-		stale, _, _ := c06Msg(1, "e1", 0)
-		stale.Sender = a
-		stale.Sequence = next - 1 // already processed: a no-op for an executor, still unauthorised for anyone else
-		for _, q := range []c12Pr{
-			{"ExecuteMessages", em, isAdmin, false},
-			{"AddValidator", addv, isAuth, false},
-			{"RemoveValidator", remv, isAuth, false},
-			{"UpdateParams", opchildtypes.NewMsgUpdateParams(a, &pp), isAuth, false},
-			{"SpendFeePool", &opchildtypes.MsgSpendFeePool{Authority: a, Recipient: s.addr("stranger"), Amount: sdk.NewCoins(sdk.NewInt64Coin("umin", 1))}, isAuth, false},
-			{"SetBridgeInfo", opchildtypes.NewMsgSetBridgeInfo(a, info), isExec, false},
-			{"FinalizeTokenDeposit", dep, isExec, false},
-			{"FinalizeTokenDeposit(stale sequence)", stale, isExec, false},
-			y.oracleProbe(s, a, isExec),
-		} {
-			if v := run(fmt.Sprintf("%s(by=%s)", q.n, sg), q.m, sg, q.ok, q.cls); v != nil {
-				return v
+	// Two passes. The first runs only the executor-guarded messages, for every signer, before anything
+	// of this Check has written the parameters (on a branch or not): what the guard answers in the
+	// state exactly as the chain's last transition left it, in the store and in the keeper's memory.
+	for pass := 0; pass < 2; pass++ {
+		for _, sg := range c12L2Signers {
+			a := s.addr(sg)
+			isAuth, isAdmin, isExec := sg == "authority", sg == s.admin, s.isExec(sg)
+			pp := p
+			em, _ := opchildtypes.NewMsgExecuteMessages(a, []sdk.Msg{opchildtypes.NewMsgUpdateParams(w.Authority, &pp)})
+			addv, _ := opchildtypes.NewMsgAddValidator("m", a, valOf("o3"), world.EdKey("k3").PubKey())
+			existing := valOf("o1")
+			if vals, err := w.K.GetAllValidators(s.ctx); err == nil && len(vals) > 0 {
+				existing = vals[0].OperatorAddress
+			}
+			remv, _ := opchildtypes.NewMsgRemoveValidator(a, existing)
+			info := c12Info("")
+			if s.info != nil {
+				info = *s.info
+			}
+			dep, _, _ := c06Msg(1, "e1", 0)
+			dep.Sender = a
+			dep.Sequence = next
+			stale, _, _ := c06Msg(1, "e1", 0)
+			stale.Sender = a
+			stale.Sequence = next - 1 // already processed: a no-op for an executor, still unauthorised for anyone else
+			for _, q := range []c12Pr{
+				{"ExecuteMessages", em, isAdmin, false},
+				{"AddValidator", addv, isAuth, false},
+				{"RemoveValidator", remv, isAuth, false},
+				{"UpdateParams", opchildtypes.NewMsgUpdateParams(a, &pp), isAuth, false},
+				{"SpendFeePool", &opchildtypes.MsgSpendFeePool{Authority: a, Recipient: s.addr("stranger"), Amount: sdk.NewCoins(sdk.NewInt64Coin("umin", 1))}, isAuth, false},
+				{"SetBridgeInfo", opchildtypes.NewMsgSetBridgeInfo(a, info), isExec, false},
+				{"FinalizeTokenDeposit", dep, isExec, false},
+				{"FinalizeTokenDeposit(stale sequence)", stale, isExec, false},
+				y.oracleProbe(s, a, isExec),
+			} {
+				if guarded := q.n == "SetBridgeInfo" || strings.HasPrefix(q.n, "FinalizeTokenDeposit") || strings.HasPrefix(q.n, "UpdateOracle"); guarded != (pass == 0) {
+					continue
+				}
+				if v := run(fmt.Sprintf("%s(by=%s)", q.n, sg), q.m, sg, q.ok, q.cls); v != nil {
+					return v
+				}
 			}
 		}
 	}
